@@ -81,7 +81,9 @@ mutual
     | exit (n : Option Nat)                -- `exit [n]`
     | setE (on : Bool)                     -- `set -e` / `set +e`
     | setM (on : Bool)                     -- `set -m` / `set +m` (job control)
-    | call (name : Name)                   -- a command name resolved by the search order
+    | call (name : Name) (nargs : Nat)     -- a command name resolved by the search order, with arguments
+    | setParams (n : Nat)                  -- `set -- w1 … wn`: the positional parameters of this context
+    | freeze (name : Name)                 -- `typeset -fr name`: makes the function read-only
     | unknown                              -- a name that is nothing: status 127
     | absent (words redirs assigns : Option Nat)
         -- no command name: words that expand to no field, redirections (performed in a subshell) and
@@ -92,6 +94,8 @@ mutual
     | ifc (cond : List Item) (body : List Item) (elifs : List (List Item × List Item)) (els : Option (List Item))
     | whileLoop (until_ : Bool) (cond : List Item) (body : List Item)
     | forLoop (values : Nat) (body : List Item)
+    | forPos (body : List Item)            -- `for v do …`: one iteration per positional parameter
+    | forRo (values : Nat)                 -- `for ro in w1 … wn`: the loop variable is read-only
     | caseC (items : List (Bool × List Item × CaseCont))   -- (pattern matches, body, continuation)
     | fundef (name : Name) (body : Cmd)
     -- shell errors (C10)
@@ -111,6 +115,8 @@ structure St where
   errexit : Bool := false
   pipefail : Bool := false
   monitor : Bool := false
+  params : Nat := 0                       -- number of positional parameters of the current context
+  roFuncs : List Name := []               -- read-only functions
   stack : List Frame := []
   funcs : List (Name × Cmd) := []
   counters : List (Nat × Nat) := []
@@ -235,21 +241,31 @@ mutual
         let v := getCounter s.counters c
         if v < k then finishSimple { s with counters := setCounter s.counters c (v+1), status := 0 } .continue_
         else finishSimple { s with status := 1 } .continue_
-      | .call name =>
+      | .setParams n => finishSimple { s with params := n, status := 0 } .continue_
+      | .freeze name =>
+        -- `SetFunctions::execute`: an unknown function is an error of a non-special built-in
+        (match lookupFn s.funcs name with
+         | some _ => finishSimple { s with roFuncs := name :: s.roFuncs, status := 0 } .continue_
+         | none => finishSimple { s with status := 1 } .continue_)
+      | .call name nargs =>
         match classify s name with
         | .specialColon => finishSimple { s with status := 0 } .continue_
         | .regularTrue => finishSimple { s with status := 0 } .continue_
         | .notFound => finishSimple { s with status := 127 } .continue_
         | .function body =>
-          -- `execute_function_body`: only `Return` is caught
-          let (s1, r) := execCmd fuel s body
+          -- `execute_function_body`: a new context holds the arguments as positional parameters;
+          -- only `Return` is caught
+          let (s1, r) := execCmd fuel { s with params := nargs } body
+          let s1 := { s1 with params := s.params }
           match r with
           | .break_ (.return_ e) =>
             finishSimple (match e with | some e => { s1 with status := e } | none => s1) .continue_
           | r => finishSimple s1 r
         | .status n => finishSimple { s with status := n } .continue_
       | .fundef name body =>
-        finishSimple { s with funcs := defineFn s.funcs name body, status := 0 } .continue_
+        -- `define_function`: a read-only function of that name stays; status 2, `apply_errexit`
+        if s.roFuncs.contains name then finishSimple { s with status := 2 } .continue_
+        else finishSimple { s with funcs := defineFn s.funcs name body, status := 0 } .continue_
       | .expErr => (s, s.expansionError)
       | .assignErr => (s, s.expansionError)
       | .redirErr k =>
@@ -293,6 +309,15 @@ mutual
         else
           let (s1, r) := execFor fuel s0 values body
           (s1.pop, r)
+      | .forPos body =>
+        let s0 := s.push .loop
+        if s.params = 0 ∧ !body.isEmpty then ({ s0 with status := 0 }.pop, .continue_)
+        else
+          let (s1, r) := execFor fuel s0 s.params body
+          (s1.pop, r)
+      | .forRo values =>
+        -- the first assignment to the loop variable fails: `Handle for expansion::Error`
+        if values = 0 then ({ s with status := 0 }, .continue_) else (s, s.expansionError)
       | .caseC items =>
         let (s1, r, updated) := execCase fuel s items false false
         match r with
